@@ -230,6 +230,22 @@ fn run_quorum<S: QuorumSamplingStrategy>(
                 }
             }
         }
+        if case.strategy.starts_with("fa1") {
+            // a stake that is an exact multiple of total/k is used up by the deterministic phase: the
+            // validator enters the random phase with weight zero and must not be drawn there
+            let total: u128 = case.stakes.iter().map(|s| *s as u128).sum();
+            for v in 0..n {
+                let sk = case.stakes[v] as u128 * case.k as u128;
+                if total > 0 && sk % total == 0 && count[v] as u128 != sk / total {
+                    report.violation(
+                        format!("C17:zero-residual-validator-drawn-in-random-phase:{keyctx}"),
+                        format!("n={n} stakes {}: validator {v} (stake {}) holds exactly {} seats' worth of stake for k={} and has no residual weight, yet got {} seats", case.fam, case.stakes[v], sk / total, case.k, count[v]),
+                        replay.clone(),
+                    );
+                    break;
+                }
+            }
+        }
         if let Some(cap) = cap {
             if let Some(v) = (0..n).find(|v| count[*v] > cap) {
                 report.violation(
